@@ -31,7 +31,8 @@ type c12Case struct {
 	Intruder  bool       `json:"second_connection_presents_terminal0s_phone,omitempty"` // refused just before the commands are issued; terminal 0 stays commandable
 }
 
-var commandIDs = []uint16{0x8103, 0x8104, 0x8801, 0x9101, 0x9102, 0x9205, 0x9206, 0x9207}
+// 0x8300, 0x8105, 0x8202: commands without an entry in the handler table (answered with the general response all the same)
+var commandIDs = []uint16{0x8103, 0x8104, 0x8801, 0x9101, 0x9102, 0x9205, 0x9206, 0x9207, 0x8300, 0x8105, 0x8202}
 
 func (c call) body() []byte {
 	return []byte{0xc0 | byte(c.ID>>4), byte(c.ID<<4) | 0x0a, byte(c.ID), 0x11, 0x22}
